@@ -25,6 +25,40 @@
 #undef std
 #include "driver.hpp"
 
+// Object ids in the trace are assigned per address.  The library frees each task runner (and with it the
+// runner's mutex) after the drain, and the allocator would hand the same address to the next runner, making
+// two different mutexes indistinguishable in the trace.  Frees performed by the client threads are therefore
+// postponed to the end of the case (no address is reused within a case).
+namespace quarantine {
+constexpr size_t CAP = 1 << 16;
+static void* held[CAP];
+static size_t count = 0;
+inline void release_all()
+{
+    for (size_t i = 0; i < count; ++i) std::free(held[i]);
+    count = 0;
+}
+}  // namespace quarantine
+void* operator new(std::size_t n)
+{
+    void* p = std::malloc(n ? n : 1);
+    if (p == nullptr) throw std::bad_alloc();
+    return p;
+}
+void* operator new[](std::size_t n) { return operator new(n); }
+void operator delete(void* p) noexcept
+{
+    if (p == nullptr) return;
+    if (vs::active() && quarantine::count < quarantine::CAP) {
+        quarantine::held[quarantine::count++] = p;
+        return;
+    }
+    std::free(p);
+}
+void operator delete[](void* p) noexcept { operator delete(p); }
+void operator delete(void* p, std::size_t) noexcept { operator delete(p); }
+void operator delete[](void* p, std::size_t) noexcept { operator delete(p); }
+
 namespace {
 using vs::VPay;
 
@@ -184,6 +218,11 @@ struct DeferredComp {
             case 3: inst.reset(new Inst<vstd::mutex>(n)); break;
             default: inst.reset(new Inst<vstd::shared_timed_mutex>(n)); break;
         }
+    }
+    ~DeferredComp()
+    {
+        inst.reset();
+        quarantine::release_all();
     }
     long op(int tid, const std::vector<long>& o) { return inst->op(tid, o); }
     void final(std::vector<std::vector<long>>& out) { inst->final(out); }
